@@ -19,7 +19,9 @@ func init() {
 			"D2 one canonical tag order: every comparison of tag keys in the parser's sort machinery (sorted fast path, insertion sort comparator, duplicate check) compares keys extracted by the escape-aware scanner scanTo(..,'='), and package models never searches for a line-protocol delimiter with a raw byte search; " +
 			"D3 a failed binary decode never yields a usable point: NewPointFromBytes returns a point only after UnmarshalBinary succeeded and returns a nil point with every error; " +
 			"D4 writer/parser escape tables agree: every escape pair is backslash+character, and every delimiter the measurement / tag scanners stop at is a character the corresponding writer escapes; " +
+			"(D4 also: the gate in front of tag escaping, Tags.needsEscape, looks for every character of the tag escape table in tag keys and in tag values;) " +
 			"D5 the field-type dispatch that validates and rebuilds binary points covers the five field types; " +
+			"D7 a float token in scientific notation is accepted by scanNumber only on paths where parseFloatBytes validated it (the scanner itself does not check the exponent's syntax); " +
 			"D6 a malformed line is rejected without affecting the other lines: per loop iteration of ParsePointsWithPrecision a line whose parse failed is recorded and not kept, a line whose parse succeeded is kept, no line aborts the loop, and recorded failures surface as the call's error. " +
 			"NOT decided: numeric parsing, timestamp precision arithmetic (overflow tests in SafeCalcTime), UTF-8 handling, exact float formatting.",
 		RuleText:    "obligation = (rule, function, site | table row); wire-length guard analysis; definition provenance of comparison operands; outcome facts; typed-AST table extraction; enum exhaustiveness; per-iteration marked path exploration",
@@ -297,6 +299,92 @@ func runC12(c *core.Ctx) {
 					fmt.Sprintf("%s treats %q as a delimiter unless it is escaped, but %s has no escape for it: a name containing %q is written unescaped and parsed back as something else", row.fn, s, row.table, s))
 			}
 		}
+		// the gate in front of escapeTag (Tags.needsEscape) looks for every character of the tag table in keys and in values
+		ne := c.Fn(models + ".Tags.needsEscape")
+		neInfo := ne.Info()
+		tagTable := c.P.LookupObj(models, "tagEscapeCodes")
+		fromTable := func(x ast.Expr) bool {
+			// c.k[0] where c is (an element of) the table
+			found := false
+			ast.Inspect(x, func(nd ast.Node) bool {
+				id, ok := nd.(*ast.Ident)
+				if !ok {
+					return true
+				}
+				o := neInfo.ObjectOf(id)
+				if o == tagTable {
+					found = true
+				}
+				// a local defined from the table
+				ast.Inspect(ne.Body, func(d ast.Node) bool {
+					switch s := d.(type) {
+					case *ast.AssignStmt:
+						for i, l := range s.Lhs {
+							if lid, ok := l.(*ast.Ident); ok && neInfo.ObjectOf(lid) == o && i < len(s.Rhs) {
+								ast.Inspect(s.Rhs[i], func(r ast.Node) bool {
+									if rid, ok := r.(*ast.Ident); ok && neInfo.ObjectOf(rid) == tagTable {
+										found = true
+									}
+									return true
+								})
+							}
+						}
+					case *ast.RangeStmt:
+						for _, l := range []ast.Expr{s.Key, s.Value} {
+							if lid, ok := l.(*ast.Ident); ok && neInfo.ObjectOf(lid) == o {
+								if rid, ok := ast.Unparen(s.X).(*ast.Ident); ok && neInfo.ObjectOf(rid) == tagTable {
+									found = true
+								}
+							}
+						}
+					}
+					return true
+				})
+				return !found
+			})
+			return found
+		}
+		cover := map[string]map[byte]bool{"Key": {}, "Value": {}}
+		full := map[string]bool{}
+		ast.Inspect(ne.Body, func(nd ast.Node) bool {
+			ce, ok := nd.(*ast.CallExpr)
+			if !ok || len(ce.Args) != 2 {
+				return true
+			}
+			fn, ok := core.Callee(neInfo, ce).(*types.Func)
+			if !ok || fn.Pkg() == nil || fn.Pkg().Path() != "bytes" {
+				return true
+			}
+			se, ok := ast.Unparen(ce.Args[0]).(*ast.SelectorExpr)
+			if !ok || se.Sel.Name != "Key" && se.Sel.Name != "Value" {
+				return true
+			}
+			fld := se.Sel.Name
+			if fromTable(ce.Args[1]) {
+				full[fld] = true
+				return true
+			}
+			if b, isC := byteConst(neInfo, ce.Args[1]); isC {
+				cover[fld][b] = true
+			} else if tv := neInfo.Types[ce.Args[1]]; tv.Value != nil && tv.Value.Kind() == constant.String {
+				for _, ch := range []byte(constant.StringVal(tv.Value)) {
+					cover[fld][ch] = true
+				}
+			}
+			return true
+		})
+		for _, fld := range []string{"Key", "Value"} {
+			var missing []string
+			for ch := range tables["tagEscapeCodes"] {
+				if !full[fld] && !cover[fld][ch] {
+					missing = append(missing, string(ch))
+				}
+			}
+			sort.Strings(missing)
+			c.Check("escape-gate-covers-table", fmt.Sprintf("%s/%s", ne.Name, fld), ne.PosStr(), len(missing) == 0,
+				fmt.Sprintf("Tags.needsEscape does not look for %q in tag %ss although escapeTag escapes them: a tag set whose only special character is one of these is written unescaped, so the key built from the tags differs from the parsed key (different series, different shard hash) and does not parse back", missing, strings.ToLower(fld)))
+		}
+
 		// the writers use the tables they are checked against
 		for _, row := range []struct{ fn, table string }{
 			{"EscapeMeasurement", "measurementEscapeCodes"}, {"unescapeMeasurement", "measurementEscapeCodes"},
@@ -348,6 +436,108 @@ func runC12(c *core.Ctx) {
 			})
 		}
 		c.Floor("field type dispatches of the binary point form", n, 2)
+	})
+
+	c.Clause("D7", func() {
+		// number tokens the scanner cannot validate itself are validated by the float parser: a float token in
+		// scientific notation is accepted only after parseFloatBytes returned nil
+		f := c.Fn(models + ".scanNumber")
+		info := f.Info()
+		// flags: boolean locals set to true in a branch that compares the current byte with given characters
+		flagFor := func(chars ...byte) types.Object {
+			var res types.Object
+			ast.Inspect(f.Body, func(nd ast.Node) bool {
+				ifs, ok := nd.(*ast.IfStmt)
+				if !ok {
+					return true
+				}
+				hit := false
+				ast.Inspect(ifs.Cond, func(x ast.Node) bool {
+					if be, ok := x.(*ast.BinaryExpr); ok && be.Op == token.EQL {
+						if b, isC := byteConst(info, be.Y); isC {
+							for _, ch := range chars {
+								if b == ch {
+									hit = true
+								}
+							}
+						}
+					}
+					return true
+				})
+				if !hit {
+					return true
+				}
+				for _, s := range ifs.Body.List {
+					if as, ok := s.(*ast.AssignStmt); ok && len(as.Lhs) == 1 && len(as.Rhs) == 1 && core.ExprStr(as.Rhs[0]) == "true" {
+						if id, ok := as.Lhs[0].(*ast.Ident); ok && res == nil {
+							res = info.ObjectOf(id)
+						}
+					}
+				}
+				return true
+			})
+			return res
+		}
+		sci, isInt, isUns := flagFor('e', 'E'), flagFor('i'), flagFor('u')
+		c.Need(sci != nil && isInt != nil && isUns != nil, "scanNumber: flags for scientific notation, integer and unsigned suffix")
+		pf := calleeIn(f, models+".parseFloatBytes")
+		findOrAbort(c, f, "parseFloatBytes", evCall(pf), 1)
+		mentions := func(x ast.Expr) bool {
+			found := false
+			ast.Inspect(x, func(nd ast.Node) bool {
+				if id, ok := nd.(*ast.Ident); ok {
+					if o := info.ObjectOf(id); o == sci || o == isInt || o == isUns {
+						found = true
+					}
+				}
+				return !found
+			})
+			return found
+		}
+		bad := ""
+		nRet := 0
+		seen := map[*core.Event]bool{}
+		complete := f.Flow().ExplorePaths(func(k core.VarKey, fct core.Fact) bool {
+			if ce, ok := fct.Def.(*ast.CallExpr); ok && pf(ce) {
+				return true
+			}
+			return k.Root == nil && strings.HasPrefix(k.Path, "cond:") && fct.Def != nil && mentions(fct.Def)
+		}, func(e *core.Event, st core.State) {
+			if e.Kind != core.EvReturn {
+				return
+			}
+			fact, _ := f.ReturnErrFact(e)
+			if fact.Nil != core.IsNil {
+				return
+			}
+			if !seen[e] {
+				seen[e] = true
+				nRet++
+			}
+			val := map[types.Object]int{} // 1 true, 2 false
+			for k, fct := range st {
+				if k.Root != nil || !strings.HasPrefix(k.Path, "cond:") || fct.Def == nil || fct.Bool == 0 {
+					continue
+				}
+				var atoms []atomB
+				decompose(fct.Def, fct.Bool == 1, &atoms)
+				for _, a := range atoms {
+					if id, ok := ast.Unparen(a.x).(*ast.Ident); ok {
+						if a.val {
+							val[info.ObjectOf(id)] = 1
+						} else {
+							val[info.ObjectOf(id)] = 2
+						}
+					}
+				}
+			}
+			if val[isInt] == 2 && val[isUns] == 2 && !core.OutcomeOK(st, pf) && val[sci] != 2 {
+				bad = "a float token is accepted on a path where parseFloatBytes did not validate it and the token was not established to be free of an exponent: malformed exponents ('1e', '1e+', '1ee5') are accepted as fields and fail later for the whole batch"
+			}
+		})
+		c.Need(complete, "exploration bound scanNumber")
+		c.Floor("success returns of scanNumber", nRet, 1)
+		c.Check("scientific-notation-validated-by-parser", f.Name, f.PosStr(), bad == "", bad)
 	})
 
 	c.Clause("D6", func() {
